@@ -213,6 +213,101 @@ def r3_effects(ctx, fields, setters, pairing):
                        t, "black" if t else "white", sorted((a, b - 1000 if isinstance(b, int) else b) for a, b in r1), 1 - t, t), ctx.where(mk))
 
 
+UNCONDITIONAL_SETTERS = ("set_en_passant_attack", "set_next_en_passant_square", "set_piece_moved", "set_piece_attacked", "set_source_square",
+                         "set_target_square", "set_castle_move", "set_previous_halfmove", "set_previous_en_passant_square", "set_promotion_piece", "set_side_to_move")
+
+
+ALWAYS_REQUIRED = ("set_piece_moved", "set_source_square", "set_target_square", "set_side_to_move", "set_previous_halfmove", "set_previous_en_passant_square")
+
+
+def move_producers(ctx, rid):
+    """every function of the board crate that pushes a Move into a vector, with its push blocks"""
+    prog = ctx.prog
+    from ..expr import operand_ty
+    out = []
+    for k, f in prog.fns.items():
+        if f.get("test") or f["crate"] != "inkayaku_board" or f["kind"] == "promoted":
+            continue
+        pushes = []
+        for bi, b in enumerate(f["blocks"]):
+            t = b["term"]
+            if b["cleanup"] or t["k"] != "call":
+                continue
+            key = t["callee"].get("key") or ""
+            if key.rsplit("::", 1)[-1] in ("push", "push_back", "insert") and "Vec" in key or key.endswith("VecDeque::push_back"):
+                tys = [operand_ty(f, a) or "" for a in t["args"]]
+                if any(ty.endswith("board::Move") or ty == "inkayaku_board::Move" or ty.endswith("::Move") for ty in tys[1:]):
+                    mv_local = None
+                    for a in t["args"][1:]:
+                        if a.get("k") in ("copy", "move") and not a["pl"]["p"]:
+                            mv_local = a["pl"]["l"]
+                    pushes.append((bi, mv_local, t["line"]))
+        if pushes:
+            out.append((k, f, pushes))
+    return out
+
+
+def r7_every_move_fully_recorded(ctx, rid="C02.R7"):
+    ctx.rule(rid, "every function that emits a Move (pushes it into the move list) has, on every path to the push, recorded what the move needs: always the moving piece, both squares, the side and the two undo fields (previous clock, previous e.p. square); and each of the five zero-defaulting fields (captured piece, castle / e.p. marks, promotion, next e.p. square) on every path if it sets it on any path", floor=11)
+    prog = ctx.prog
+    prods = move_producers(ctx, rid)
+    if not prods:
+        ctx.lost(rid, "no function of the board crate pushes a Move")
+        return
+    for k, f, pushes in prods:
+        cfg = Cfg(f)
+        ex = Exprs(f)
+        # a producer that only forwards a Move it received (a parameter or a value read from another list) is not a constructor
+        for (pb, mv_local, line) in pushes:
+            # the pushed operand is usually a temporary copy of the move being built: follow plain copies back
+            for _ in range(6):
+                dfs = ex.defs.get(mv_local, ()) if mv_local is not None else ()
+                if len(dfs) == 1 and dfs[0][0] == "stmt" and dfs[0][3]["op"] == "use" and dfs[0][3]["a"][0].get("k") in ("copy", "move") and not dfs[0][3]["a"][0]["pl"]["p"]:
+                    mv_local = dfs[0][3]["a"][0]["pl"]["l"]
+                else:
+                    break
+            if mv_local is None or mv_local <= f["args"]:
+                continue
+            # is the move built here? (some Move setter is called on it in this function)
+            setter_blocks = {}
+            for bi, b in enumerate(f["blocks"]):
+                t = b["term"]
+                if b["cleanup"] or t["k"] != "call":
+                    continue
+                key = t["callee"].get("key") or ""
+                if key.startswith(MF.MOVE + "set_"):
+                    recv = ex.operand(t["args"][0])
+                    while recv[0] in ("&", "*"):
+                        recv = recv[1]
+                    if recv == ("local", mv_local):
+                        setter_blocks.setdefault(key[len(MF.MOVE):], set()).add(bi)
+            if not setter_blocks:
+                init = ex.initial(mv_local) if hasattr(ex, "initial") else None
+                if not (init and init[0] == "agg"):
+                    continue
+            for sname in UNCONDITIONAL_SETTERS:
+                via = setter_blocks.get(sname, set())
+                if not via and sname not in ALWAYS_REQUIRED:
+                    # a producer that never touches this field leaves it at its zero default (no promotion, no e.p.
+                    # mark, nothing captured, no castle mark, no next e.p. square): legitimate for a special-purpose producer
+                    continue
+                # can the push be reached from the entry without passing a call of this setter?
+                seen, work = set(), [0]
+                reach = False
+                while work:
+                    x = work.pop()
+                    if x in seen or x in via:
+                        continue
+                    seen.add(x)
+                    if x == pb:
+                        reach = True
+                        break
+                    work.extend(y for y in cfg.succ[x] if not f["blocks"][y]["cleanup"])
+                ctx.ob(rid, "%s|%s" % (k.rsplit("::", 1)[-1], sname), not reach,
+                       "" if not reach else "%s can emit a move without having called Move::%s on it: the field keeps its zero default (for the undo fields: unmake restores clock 0 / no e.p. square; for the next e.p. square: the successor has no e.p. target)" % (f["display"], sname),
+                       ctx.where(f, line), sample={"producer": k, "setter": sname} if sname == "set_previous_halfmove" else None)
+
+
 def enumerate_generator(ctx, rid):
     """all paths of make_move with, per path: colour, the setter calls made and the path conditions"""
     prog = ctx.prog
@@ -444,3 +539,4 @@ def run(ctx):
     _run_before_fx(ctx)
     from . import movefx_rules
     movefx_rules.rule_make_vs_rules(ctx)
+    r7_every_move_fully_recorded(ctx)
